@@ -4,6 +4,7 @@ import Driver.C03
 import Driver.C05
 import Driver.C02
 import Driver.C18
+import Driver.C19
 /-!
 Line-protocol driver: one request per line on stdin, one answer per line on stdout.
 Only model files are imported (no proofs, no Mathlib), so this links as a native executable.
@@ -26,6 +27,7 @@ def dispatch (line : String) : String :=
     | "comp" => cmdComp args
     | "cdec" => cmdCdec args
     | "menc" => cmdMenc args
+    | "route" => cmdRoute args
     | _ => "bad-op"
 
 partial def loop (h : IO.FS.Stream) (out : IO.FS.Stream) : IO Unit := do
